@@ -11,6 +11,7 @@ from .util import Vars, reaches_without
 from . import p_c01, p_c06
 from .p_c05 import PR
 
+TECHNIQUE = "static analysis: finite-domain evaluation of writer/reader digit expressions over all digits; Horner/divmod step shape; abstract interpretation of Num::from_string over the shape domain of Display's image; embedding rule of the stack literal"
 LEVEL = "other"
 EXPLANATION = (
     "Writer/reader agreement decided from the code's own digit expressions by finite-domain evaluation over all 36 "
